@@ -119,8 +119,12 @@ async fn c04_late(ctx: Ctx, how: u8) {
                 w.write(sample(id, s, 8), None).await.expect("write");
             }
             ctx.sleep_ms(300).await;
+            // faults (up to the scenario's bound) on everything exchanged for the late joiner: the GAPs that describe the
+            // holes are sent once at match time, losing one leaves the repair to the NACK path (seeded change C01-2)
+            ctx.set_window(user_window());
+            ctx.open_window();
             let r = n2.subscriber.create_datareader::<KeyedData>(&n2.topic, QosKind::Specific(tlr(reliable_r(HistoryQosPolicyKind::KeepAll))), NO_LISTENER, NO_STATUS).await.expect("r");
-            ctx.sleep_ms(1500).await;
+            ctx.sleep_ms(2500).await;
             let mut got = seqs(&take_all(&r).await);
             got.sort();
             if got != vec![(1, 3), (2, 1)] {
@@ -775,7 +779,8 @@ pub fn extra(id: &str) -> Vec<Scenario> {
         }
         "C04" => {
             for (k, n) in [(0u8, "tl-keep-last-two-instances"), (1, "best-effort-volatile-late-joiner"), (2, "empty-history"), (3, "volatile-and-tl-reader-same-participant")] {
-                add(n.into(), Scenario::new(format!("C04.audit[{n}]"), 0, move |ctx| c04_late(ctx, k)));
+                let bound = if k == 0 { if thorough { 2 } else { 1 } } else { 0 };
+                add(n.into(), Scenario::new(format!("C04.audit[{n}]"), bound, move |ctx| c04_late(ctx, k)));
             }
         }
         "C01" => {
@@ -796,10 +801,12 @@ pub fn extra(id: &str) -> Vec<Scenario> {
                 add("unmatch".into(), Scenario::new(format!("C33.audit[unmatch,reader_side={rs}]"), 0, move |ctx| c33_unmatch(ctx, rs)));
             }
         }
-        "C19" => {
+        // (C28: register_instance is idempotent and lookup_instance answers for exactly the registered instances - also at
+        // the resource limits; the same enumeration serves both properties)
+        "C19" | "C28" => {
             for (kl, n) in [(None, "keep-all"), (Some(1u32), "keep-last-1"), (Some(2), "keep-last-2")] {
                 let depth = if thorough { 6 } else { 5 };
-                add(n.into(), Scenario::new(format!("C19.writer-limits[{n},depth={depth}]"), 99, move |ctx| c19_writer_limits(ctx, kl, depth)).cfg(|c| c.keep_logs = false));
+                add(n.into(), Scenario::new(format!("{id}.writer-limits[{n},depth={depth}]"), 99, move |ctx| c19_writer_limits(ctx, kl, depth)).cfg(|c| c.keep_logs = false));
             }
         }
         "C36" => add("cft".into(), Scenario::new("C36.audit[content-filtered-topic]".to_string(), 0, c36_content_filtered_topic)),
